@@ -5,6 +5,8 @@ use tokio_util::codec::{Decoder, Encoder};
 
 use crate::{BGZF_HEADER_SIZE, r#async::io::writer::deflate::GzData, gz};
 
+const MIN_FRAME_SIZE: usize = BGZF_HEADER_SIZE + gz::TRAILER_SIZE;
+
 pub struct BlockCodec;
 
 impl Decoder for BlockCodec {
@@ -23,6 +25,13 @@ impl Decoder for BlockCodec {
             usize::from(header.get_u16_le()) + 1
         };
 
+        if block_size < MIN_FRAME_SIZE {
+            return Err(io::Error::new(
+                io::ErrorKind::InvalidData,
+                "invalid frame size",
+            ));
+        }
+
         if src.len() < block_size {
             src.reserve(block_size);
             return Ok(None);
@@ -35,10 +44,12 @@ impl Decoder for BlockCodec {
         match self.decode(buf)? {
             Some(frame) => Ok(Some(frame)),
             None => {
-                if buf.is_empty() {
+                // A partial header is a clean end of input, like in the blocking reader.
+                if buf.len() < BGZF_HEADER_SIZE {
+                    buf.clear();
                     Ok(None)
                 } else {
-                    Ok(Some(buf.split().freeze()))
+                    Err(io::Error::from(io::ErrorKind::UnexpectedEof))
                 }
             }
         }
@@ -135,6 +146,39 @@ mod tests {
 
         let block = decoder.decode(&mut src)?;
         assert!(block.is_none());
+
+        Ok(())
+    }
+
+    #[test]
+    fn test_decode_with_invalid_frame_size() {
+        let mut decoder = BlockCodec;
+
+        let mut src = BytesMut::from(&BLOCK[..]);
+        src[16] = 0x18; // BSIZE = 24 (+ 1)
+        src[17] = 0x00;
+
+        assert!(matches!(
+            decoder.decode(&mut src),
+            Err(e) if e.kind() == io::ErrorKind::InvalidData
+        ));
+    }
+
+    #[test]
+    fn test_decode_eof() -> io::Result<()> {
+        let mut decoder = BlockCodec;
+
+        let mut src = BytesMut::from(&BLOCK[..]);
+        src.extend_from_slice(&BLOCK[..2]);
+        assert_eq!(decoder.decode_eof(&mut src)?.as_deref(), Some(BLOCK));
+        assert!(decoder.decode_eof(&mut src)?.is_none());
+        assert!(src.is_empty());
+
+        let mut src = BytesMut::from(&BLOCK[..BLOCK.len() - 1]);
+        assert!(matches!(
+            decoder.decode_eof(&mut src),
+            Err(e) if e.kind() == io::ErrorKind::UnexpectedEof
+        ));
 
         Ok(())
     }
